@@ -827,6 +827,10 @@ def m_into_iter(c):
         ln, l = len_lin(c, arr, aloc if aloc is not None else loc)
         byref = isinstance(v, Ref)
         shared = byref and aloc is not None and not _is_mut_ref_arg(c, 0)
+        if byref and not shared and aloc is not None:
+            # `for x in &mut v` is v.iter_mut(): the items are mutable references into the container (writes through them are weak updates of it)
+            c.ret(Iter("slice", ln, arr.elem if not arr.elem.is_bot() else Top(), extra=("refmut", aloc), pos=None), extras=((("rem",), l),))
+            return
         c.ret(Iter("slice", ln, arr.elem if not arr.elem.is_bot() else Top(), start=(aloc if shared else None), extra="ref" if byref else "val",
                    cells=dict(arr.cells) if arr.cells else None, pos=0, seen=(BOT if shared else None)), extras=((("rem",), l),))
         return
